@@ -13,7 +13,7 @@ ID = 'C04'
 RULE = ('cases = (a) quadruples (chi, op, psi, rho) constructed along a shared path of physical index pairs so that <chi|op|psi> and tr(op rho) '
         'are generically non-zero, independent bond profiles, arbitrary operator shift, L 1..5, d 1..3; (b) arbitrary (non-canonical) MPS + MPO '
         '(Hermitian M + M^dagger built in the harness, or non-Hermitian), every site position, one-site / two-site / zero-site local operators '
-        'probed with random tensors X, Y. Non-trivial: |value| > 1e-8 x product of tensor norms (a) / a bond >= 2 and L >= 2 (b).')
+        'probed with random tensors X, Y; (c) pairs of MPS from one sector family (optionally different leading charges): vdot, its conjugate symmetry, and the public left / right transfer steps combined at every cut. Non-trivial: |value| > 1e-8 x product of tensor norms (a) / a bond >= 2 and L >= 2 (b).')
 ASSUME = ['dense reach d^L <= 1024', 'relative tolerance 1e-11 with respect to the product of site-tensor norms']
 
 TOL = 1e-11
